@@ -31,6 +31,7 @@ type c10State struct {
 	// monitor memory
 	gone     map[*c10Obj]bool // reported closed or discarded at some point
 	last     *c10Obj          // object of the previous call if it was a Process call
+	first    *c10Obj          // the first object ever processed (re-submitted by the ProcessFirstAgain operation)
 	lastErr  error
 	lastNote string
 	// witness: an independent tracker with two open descriptors that this history never touches
@@ -178,6 +179,8 @@ func c10RefCanClose(in, open c19Val) bool {
 func (a *c10Alphabet) describeOp(op int) string {
 	np := len(a.process)
 	switch {
+	case op == c10OpFirstAgain:
+		return "Process(the first object of the history again)"
 	case op < np:
 		v := a.process[op]
 		p := "noPTS"
@@ -207,6 +210,26 @@ func (a *c10Alphabet) describeOp(op int) string {
 	return fmt.Sprintf("Close(equal of internal open[%d])", op-np)
 }
 
+// c10ResubmitTypes picks, from the frozen rule table, an out type x and a filler type y such that a y
+// with another event id and another signal time neither closes an open x nor an open y (so that x
+// stays open while fillers with other signal times go by).
+func c10ResubmitTypes() (x, y int) {
+	for _, x = range []int{0x36, 0x34, 0x30, 0x40, 0x20, 0x10} {
+		if !ref.OutTypes[x] {
+			continue
+		}
+		for _, y = range c10NamedTypes {
+			if ref.OutTypes[y] && !ref.CanClose(y, x, false, false, true) && !ref.CanClose(y, y, false, false, true) && y != x {
+				return x, y
+			}
+		}
+	}
+	panic("c10: no resubmission type pair")
+}
+
+// c10OpFirstAgain (only in enumerated long histories): Process(the first object of the history) once more.
+const c10OpFirstAgain = -2
+
 func c10Apply(s *c10State, op int, res *engine.Result, depth int) bool {
 	a := s.alpha
 	np := len(a.process)
@@ -222,6 +245,13 @@ func c10Apply(s *c10State, op int, res *engine.Result, depth int) bool {
 		err      error
 	)
 	switch {
+	case op == c10OpFirstAgain:
+		// the first object of the history is submitted again (not necessarily right after itself)
+		if s.first == nil {
+			return false
+		}
+		kind = "ProcessEarlierObjectAgain"
+		incoming = s.first
 	case op < np:
 		kind = "Process"
 		v := a.process[op]
@@ -229,6 +259,9 @@ func c10Apply(s *c10State, op int, res *engine.Result, depth int) bool {
 			v.PTS = uint64(100 + depth)
 		}
 		incoming = s.mk(v)
+		if s.first == nil {
+			s.first = incoming
+		}
 	case a.again && op == a.nops()-1:
 		if s.last == nil {
 			return false
@@ -261,7 +294,9 @@ func c10Apply(s *c10State, op int, res *engine.Result, depth int) bool {
 		}
 	}
 	cls := kind
-	if kind != "Close" {
+	if kind == "ProcessEarlierObjectAgain" {
+		cls = "ProcessEarlierObjectAgain"
+	} else if kind != "Close" {
 		switch {
 		case !incoming.v.HasPTS:
 			cls += "|no-PTS"
@@ -285,6 +320,12 @@ func c10Apply(s *c10State, op int, res *engine.Result, depth int) bool {
 		return true
 	}
 	after, _ := scte35.VerifDumpState(s.st)
+	if kind == "ProcessEarlierObjectAgain" && err == nil {
+		// an accepted re-submission is a new processing of the descriptor: it may be opened again even if it
+		// had been reported closed long ago (the tracker's memory is bounded); what may never happen is
+		// that it sits in the open list twice
+		delete(s.gone, incoming)
+	}
 	fail := func(clause, format string, args ...any) {
 		res.Failf(cls+"|"+clause, "%s(%s) on open=%s blackout=%v/%d: "+format,
 			append([]any{kind, c10Name(incoming), s.names(before.Open), before.InBlackout, before.BlackoutIdx}, args...)...)
@@ -364,6 +405,18 @@ func c10Apply(s *c10State, op int, res *engine.Result, depth int) bool {
 	for _, d := range after.Open {
 		if o := s.objs[d]; o != nil && s.gone[o] {
 			fail("open-holds-closed", "open list %s holds %s, which was already reported closed or discarded", s.names(after.Open), c10Name(o))
+		}
+	}
+	// ---- the duplicate memory remembers a descriptor at most once per signal time (anything else grows
+	// geometrically with the number of descriptors that share a signal time and ends in memory exhaustion)
+	for i, slot := range after.Received {
+		seenInSlot := map[scte35.SegmentationDescriptor]bool{}
+		for _, x := range slot {
+			if seenInSlot[x] {
+				fail("duplicate-memory-holds-a-descriptor-twice", "the record for signal time %d holds %d entries, %s more than once", after.ReceivedPTS[i], len(slot), c10Name(s.objs[x]))
+				break
+			}
+			seenInSlot[x] = true
 		}
 	}
 	// ---- rejections that must not change the list
@@ -620,6 +673,20 @@ func c10LongHistory(c c10Long) []int {
 		for i := 0; i < c.N; i++ {
 			h = append(h, idx(0x10, ev(i)), idx(0x13, ev(i)), idx(0x22, ev(i)), idx(0x13, ev(i+1)), idx(0x41, ev(i)), idx(0x50, 1), idx(0x14, ev(i)), idx(0x51, 1), closeOp(1))
 		}
+	case 8: // an opening descriptor, N others with N other signal times that do not close it, then the first one again
+		x, y := c10ResubmitTypes()
+		h = append(h, idx(x, 3))
+		for i := 0; i < c.N; i++ {
+			h = append(h, idx(y, uint32(1+i%2)))
+		}
+		h = append(h, c10OpFirstAgain)
+	case 9: // the same with the first descriptor closed explicitly in between (a legitimate re-opening when remembered no more)
+		x, y := c10ResubmitTypes()
+		h = append(h, idx(x, 3), closeOp(0))
+		for i := 0; i < c.N; i++ {
+			h = append(h, idx(y, uint32(1+i%2)))
+		}
+		h = append(h, c10OpFirstAgain)
 	case 5: // N pairwise different descriptors that all carry one signal time (event-major order)
 		for i := 0; i < c.N; i++ {
 			h = append(h, idxPTS(burstTypes[i%7], uint32(1+i/7), 500))
@@ -658,7 +725,7 @@ func c10CheckLong(c c10Long) engine.Result {
 }
 
 func init() {
-	common := " Monitor after every call (object identities via the private-state hook): no panic in ProcessDescriptor/Close/Open; internal list after == (list before minus removed, order kept) [+ incoming at the end]; removed elements are exactly the returned closed ones (or discarded, only in a program-resumption call); each closed one was open, appears once, is closable under the frozen rule table (equal to the argument for Close), closed list ordered last-opened first; no descriptor ever reported closed/discarded is in the list again; Open() is a duplicate-free ordered part of the internal list; same object twice in a row => rejected (as duplicate when the first call recorded it) with the list unchanged; no-PTS descriptor => rejected with the list unchanged. Canonical key = open list values + stale backing-array tail + breakaway bookkeeping + duplicate ring (per-slot value sets in ring order) + monitor memory."
+	common := " Monitor after every call (object identities via the private-state hook): no panic in ProcessDescriptor/Close/Open; internal list after == (list before minus removed, order kept) [+ incoming at the end]; removed elements are exactly the returned closed ones (or discarded, only in a program-resumption call); each closed one was open, appears once, is closable under the frozen rule table (equal to the argument for Close), closed list ordered last-opened first; no descriptor ever reported closed/discarded is in the list again; Open() is a duplicate-free ordered part of the internal list; the duplicate memory holds a descriptor at most once per signal time; same object twice in a row => rejected (as duplicate when the first call recorded it) with the list unchanged; no-PTS descriptor => rejected with the list unchanged. Canonical key = open list values + stale backing-array tail + breakaway bookkeeping + duplicate ring (per-slot value sets in ring order) + monitor memory."
 	engine.Register(&engine.Property{
 		ID: "C10", Title: "SCTE-35 state tracker: open/closed bookkeeping is consistent for every history", Level: "model_checking",
 		Scenarios: []engine.ScenarioRunner{
@@ -670,11 +737,16 @@ func init() {
 				"distinct-pts", "distinct-pts", 4, 5),
 			&engine.Enum[c10Long]{
 				Name: "long-histories",
-				Rule: "five history patterns (start/end pairs; many chapters closed by one program end; breakaway/resumption cycles with content opened in the blackout; placement opportunities with explicit closes; nested breakaways closed by unscheduled-event and network signals) repeated N = 1..12 (thorough 1..40) times with always-distinct PTS (histories of up to ~360 calls, beyond the 10-slot duplicate ring), each also with the same object processed again after every position; the identity monitor runs after every call." + common,
+				Rule: "two re-submission patterns (a chapter start, N = 0..15 other signals with other signal times that leave it open [or after it was closed explicitly], then the same object again: it may be rejected or, once forgotten, re-opened, but never sit in the open list twice) and five history patterns (start/end pairs; many chapters closed by one program end; breakaway/resumption cycles with content opened in the blackout; placement opportunities with explicit closes; nested breakaways closed by unscheduled-event and network signals) repeated N = 1..12 (thorough 1..40) times with always-distinct PTS (histories of up to ~360 calls, beyond the 10-slot duplicate ring), each also with the same object processed again after every position; the identity monitor runs after every call." + common,
 				Gen: func(r *engine.Run, emit func(c10Long)) {
 					maxN := 12
 					if r.Thorough() {
 						maxN = 40
+					}
+					for p := 8; p <= 9; p++ {
+						for n := 0; n <= 15; n++ {
+							emit(c10Long{Pattern: p, N: n, Again: -1})
+						}
 					}
 					for p := 0; p < 5; p++ {
 						for n := 1; n <= maxN; n++ {
